@@ -368,6 +368,7 @@ __strfdt_card(
 		/* convert to sexy */
 		int64_t sexy = dt_conv_to_sexy(that).sexy;
 		res = snprintf(buf, bsz, "%" PRIi64, sexy);
+		res = res < bsz ? res : bsz - 1U;
 		break;
 	}
 
@@ -382,6 +383,7 @@ __strfdt_card(
 		res = snprintf(
 			buf, bsz, "%c%02u:%02u",
 			sign, (uint32_t)z / 3600U, ((uint32_t)z / 60U) % 60U);
+		res = res < bsz ? res : bsz - 1U;
 		break;
 	}
 
